@@ -186,7 +186,7 @@ def build_runners(configs, crate="drive"):
 def runner_info(binp, cpu=None):
     cmd = [binp, "--info"] + ([f"--cpu={cpu}"] if cpu else [])
     rc, out, err = sh(cmd, timeout=60)
-    if rc != 0:
+    if rc != 0 or not out.startswith("cfg "):
         return None
     d = {}
     for tok in out.strip().split()[1:]:
